@@ -126,6 +126,26 @@ def sink_rule(repo, res, ty, rule="SINK"):
                     holders.add(x["recv"]["path"])
                 elif x["k"] == "Local" and x.get("init") is not None and x["pat"].get("k") == "PIdent" and calls_enc(x["init"]) and x["init"].get("k") in ("Call", "Macro", "MethodCall"):
                     holders.add(x["pat"]["name"])
+            # PREENC: what the encoder is given is the grammar's text itself -- a caller that rewrites it first (`\n` -> "`n") hands the
+            # encoder characters it will escape again
+            fenvs = A.collect_envs(fn)
+            k_enc = 0
+            for x in A.walk(fn.body):
+                if x["k"] == "Call" and x["func"]["k"] == "Path" and x["func"]["path"].split("::")[-1] in enc_names and x["args"]:
+                    k_enc += 1
+                    t = A.resolve(x["args"][0], fenvs.get(id(x)) or A.fn_env(fn))
+                    pre = []
+
+                    def scan(y):
+                        if isinstance(y, tuple):
+                            if y and y[0] == "mcall" and y[1] in EDITS:
+                                pre.append(y[1])
+                            for z in y:
+                                scan(z)
+                    scan(t)
+                    n_hold += 1
+                    res.check(not pre, rule, f"{rule}:{fn.qname}:PREENC#{k_enc}", "the encoder is given the text as it is" if not pre else
+                              f"the text is rewritten with .{pre[0]}(..) BEFORE it is given to the encoder: the encoder then escapes what the rewrite inserted, and the shell reads back something else", f"{fn.file}:{x['l']}")
             params = {p_["name"] for p_ in fn.params}
             for h in sorted(holders - params):
                 n_hold += 1
